@@ -100,6 +100,7 @@ theorem extendPre_ok (env : Env) (child base : Spec) (r : Pre) (hcf : child.flag
             · simp [Spec.isUnion] at hbu
             · injection heq with heq; exact heq.symm
           subst hb
+          simp only [hbu, Bool.false_and, Bool.false_eq_true, if_false] at h
           split at h
           · cases h
           · split at h
